@@ -87,6 +87,88 @@ func reportZone(rep *vh.Report, res *caseResult) {
 	}
 }
 
+// neighbours builds histories around a disagreement between model and implementation, aimed at
+// the clause of the statement the disagreeing operation belongs to: suppression (the call and
+// its neighbours repeated at once, just inside, at and just past the interval, with a fresh id
+// in between), ordered lines and rotation/prune (marked lines before and after a further cycle
+// and a retention pass).
+func neighbours(c *hcase, mm []mismatch) []*hcase {
+	at := len(c.Ops) - 1
+	for _, m := range mm {
+		if m.Op >= 0 {
+			at = m.Op
+			break
+		}
+	}
+	if at < 0 {
+		return nil
+	}
+	base := func() *hcase {
+		d := *c
+		d.Gen = c.Gen + "+probe"
+		d.Ops = append([]hop{}, c.Ops[:at+1]...)
+		return &d
+	}
+	t := c.Ops[at].T
+	mark := func(n int) string { return vh.Hex([]byte(fmt.Sprintf("probe line number %d #99%07d#", n, n))) }
+	var out []*hcase
+	// suppression clause
+	var logs []hop
+	for j := at; j >= 0 && len(logs) < 3; j-- {
+		if c.Ops[j].Kind == "log" {
+			logs = append(logs, c.Ops[j])
+		}
+	}
+	if len(logs) > 0 {
+		for _, iv := range []int64{10, 60} {
+			d := base()
+			for _, dt := range []int64{0, 1, iv*1000 - 1, iv * 1000, iv*1000 + 1} {
+				for _, l := range logs {
+					l.T = t + dt
+					d.Ops = append(d.Ops, l)
+				}
+				d.Ops = append(d.Ops, hop{Kind: "log", T: t + dt, Meth: "errorf", Msg: vh.Hex([]byte(fmt.Sprintf("fresh probe id %d", dt)))})
+				l := logs[0]
+				l.T = t + dt
+				d.Ops = append(d.Ops, l)
+			}
+			out = append(out, d)
+		}
+	}
+	// ordered lines, rotation, prune
+	d := base()
+	d.Ops = append(d.Ops, hop{Kind: "log", T: t, Meth: "errorf", Msg: mark(1)}, hop{Kind: "log", T: t, Meth: "printlnstd", Msg: mark(2)},
+		hop{Kind: "proc", T: t + 61000}, hop{Kind: "log", T: t + 61000, Meth: "errorf", Msg: mark(3)},
+		hop{Kind: "proc", T: t + dayMs + 61000}, hop{Kind: "log", T: t + dayMs + 61000, Meth: "printlnstd", Msg: mark(4)},
+		hop{Kind: "clr", T: t + dayMs + 61000}, hop{Kind: "log", T: t + dayMs + 61001, Meth: "errorf", Msg: mark(5)})
+	out = append(out, d)
+	return out
+}
+
+// directed: before a disagreement is reported as a mere correspondence break, the statement is
+// evaluated directly on histories around it; a failing one is reported instead (kind property).
+var directedRuns int
+
+func directed(env *vh.Env, rep *vh.Report, res *caseResult) bool {
+	if len(res.pf) > 0 || len(res.mm) == 0 || realClock || directedRuns >= 15 {
+		return false
+	}
+	directedRuns++
+	for _, v := range neighbours(res.c, res.mm) {
+		if v.T0+0 < baseTime {
+			continue
+		}
+		r := evalCase(env, v)
+		rep.Count("directed-search:histories")
+		if len(r.pf) > 0 {
+			rep.Count("directed-search:property-failure-found")
+			report(rep, r)
+			return true
+		}
+	}
+	return false
+}
+
 func report(rep *vh.Report, res *caseResult) {
 	replay := map[string]interface{}{"stage": "history", "case": res.c}
 	if zoneName != "" {
@@ -166,6 +248,9 @@ func genCases(rng *vh.Rng, seq *int, withWitness bool) []*hcase {
 	for i := 0; i < 25; i++ {
 		cases = append(cases, genCollide(rng, seq))
 	}
+	for i := 0; i < 4; i++ {
+		cases = append(cases, genFullTable(rng, seq))
+	}
 	return cases
 }
 
@@ -232,6 +317,9 @@ func runCases(env *vh.Env, rep *vh.Report, cases []*hcase) {
 					reportZone(rep, res2)
 					continue
 				}
+			}
+			if directed(env, rep, res2) {
+				continue
 			}
 			report(rep, res2)
 		}
@@ -308,6 +396,7 @@ func histChildren(env *vh.Env, rep *vh.Report, kind string, chunks int) {
 
 func main() {
 	env, rep := vh.Parse("C17")
+	readIDCacheCap(env.Repo)
 	if os.Getenv("C17_CHILD") == "conc" {
 		concChild()
 		return
